@@ -16,7 +16,14 @@
 (*           x the style profiles (one slice per root name x attribute list);  *)
 (*  "prefix" the trees of "styles" x the profiles: laws about every prefix;    *)
 (*  "short"  EVERY string of length <= N over the 8 symbols < > / = " a space  *)
-(*           ! (one slice per first symbol, or per first two symbols).         *)
+(*           ! (one slice per first symbol, or per first two symbols);         *)
+(*  "content" EVERY character-data run of length <= 3 over { t, space, LF,     *)
+(*           tab, VT, FF } placed between '>' and '<' in three positions       *)
+(*           (<a>RUN</a>, <a><b/>RUN</a>, <a>RUN<b/></a>; one slice each).     *)
+(*           VT and FF are whitespace for isspace() but not for the reader's   *)
+(*           tokenizer and lie outside the subset: for runs holding one only   *)
+(*           SafeOutcomes is stated ("ReadSafe" cases), for the others the     *)
+(*           tree.  (VT cannot be written in a TLA+ string: environment XML_VT)*)
 (*                                                                             *)
 (* Laws:                                                                       *)
 (*   WellFormed  every generated tree satisfies IsTree                         *)
@@ -26,6 +33,9 @@
 (*               denotes the same tree (only trailing whitespace / comments    *)
 (*               can be cut); the shortest accepted prefix ends with '>'; the  *)
 (*               lexical scan ends in "text" on every accepted prefix          *)
+(*   ContentLaw  a document of the "content" family is accepted iff its run    *)
+(*               holds neither VT nor FF, and then the content is the run      *)
+(*               trimmed (no whitespace at either end, run = ws + content + ws)*)
 (*   ShortLaw    every accepted short string denotes one well-formed tree      *)
 (*               whose plain and whose most decorated rendering are parsed     *)
 (*               back to the same tree, and the lexical scan ends in "text"    *)
@@ -99,6 +109,7 @@ SliceSeq ==
      [i \in 1..20 |-> Sl("styles", (i - 1) \div 5, Md(i - 1, 5))]                                  \* x = hdr, y = cm
   \o [i \in 1..(Len(NameSeq) * Len(PropListSeq)) |-> Sl("trees", 1 + (i - 1) \div Len(PropListSeq), 1 + Md(i - 1, Len(PropListSeq)))]
   \o [i \in 1..Len(CoreSeq) |-> Sl("prefix", i, 0)]
+  \o [i \in 1..3 |-> Sl("content", i, 0)]
   \o (IF SPLIT2 THEN [i \in 1..64 |-> Sl("short", 1 + (i - 1) \div 8, 1 + Md(i - 1, 8))] \o <<Sl("short", 0, 0)>>
       ELSE [i \in 1..8 |-> Sl("short", i, 0)] \o <<Sl("short", 0, 0)>>)                          \* (0, 0): the strings shorter than the prefix
 
@@ -173,6 +184,36 @@ ShortSlice(sl, file) ==
      ELSE PrintT(<<"short law fails", CHOOSE s \in Acc : ~ShortOk(s)>>) /\ FALSE
 
 \* ---------------------------------------------------------------------------
+\* family "content": character-data runs with the bytes on which isspace() and the reader's isWhite() disagree
+\* ---------------------------------------------------------------------------
+VT == IOEnv.XML_VT                     \* the vertical tab (one character)
+FF == "\f"
+RunAlpha == {"t", " ", "\n", "\t", VT, FF}
+Runs == UNION {[1..k -> RunAlpha] : k \in 0..3}
+BTag == <<"<", "b", "/", ">">>
+ContentDoc(pos, r) == <<"<", "a", ">">> \o (IF pos = 2 THEN BTag ELSE <<>>) \o r \o (IF pos = 3 THEN BTag ELSE <<>>) \o <<"<", "/", "a", ">">>
+ContentEval(pos, r) ==
+  LET d == ContentDoc(pos, r)
+      p == ParseDoc(d)
+      odd == \E i \in DOMAIN r : r[i] \in {VT, FF}
+      kids == IF pos = 1 THEN <<>> ELSE <<Node(<<"b">>, <<>>, <<>>, <<>>)>>
+      ct == IF p.ok THEN p.tree.child[1].content ELSE <<>>
+  IN [law |-> /\ p.ok = ~odd
+              /\ (p.ok => /\ p.tree = DocNode(<<Node(<<"a">>, <<>>, ct, kids)>>)
+                           /\ IsText(ct)
+                           /\ \E i \in 0..Len(r), j \in 0..Len(r) :
+                                  /\ i + Len(ct) + j = Len(r) /\ SubSeq(r, i + 1, i + Len(ct)) = ct
+                                  /\ \A k \in (1..i) \cup ((Len(r) - j + 1)..Len(r)) : r[k] \in WS),
+      case |-> IF p.ok THEN [a |-> "Read", arg |-> [doc |-> Join(d)], cls |-> DocClass(p, d), exp |-> [outcome |-> "ok", tree |-> TreeJ(p.tree)]]
+               ELSE [a |-> "ReadSafe", arg |-> [doc |-> Join(d)], cls |-> "", exp |-> [outcomes |-> SetToSeq(SafeOutcomes)]]]
+ContentSlice(sl, file) ==
+  \E Ev \in {{ContentEval(sl.x, r) : r \in Runs}} :
+     IF Len(VT) = 1 /\ VT \notin Char /\ \A e \in Ev : e.law
+     THEN ndJsonSerialize(file, SetToSeq({e.case : e \in Ev}))
+          /\ PrintT(<<"xmlgen", sl, "runs", Cardinality(Runs), "outside the subset", Cardinality({e \in Ev : e.case.a = "ReadSafe"})>>)
+     ELSE PrintT(<<"content law fails", sl, CHOOSE r \in Runs : ~ContentEval(sl.x, r).law>>) /\ FALSE
+
+\* ---------------------------------------------------------------------------
 PolicyCase == [a |-> "Policy", arg |-> [what |-> "any file"], cls |-> "", exp |-> [outcomes |-> SetToSeq(SafeOutcomes)]]
 
 Do(i) ==
@@ -181,6 +222,7 @@ Do(i) ==
   IN CASE sl.fam \in {"styles", "trees"} -> RoundTripSlice(sl, file)
        [] sl.fam = "prefix" -> PrefixSlice(sl) /\ (IF sl.x = 1 THEN ndJsonSerialize(file, <<PolicyCase>>) ELSE TRUE)
        [] sl.fam = "short" -> ShortSlice(sl, file)
+       [] sl.fam = "content" -> ContentSlice(sl, file)
 
 Init == slice \in {i \in DOMAIN SliceSeq : FAMS = "all" \/ SliceSeq[i].fam = FAMS}
 Next == \/ slice > 0 /\ Do(slice) /\ slice' = 0 - slice
